@@ -85,8 +85,9 @@ PairsOf(lo) == IF Ordered THEN LeafPairs(lo) ELSE UPairs(lo)
 
 L1Conj == {Conj(s) : s \in PairsOf(0)}
 L1Disj == {Disj(s, m) : s \in PairsOf(0), m \in Mins}
-L1Bool == {Bool(m, s, n, k) : m \in Opt(Leaves), s \in Opt(Leaves), n \in Opt(Leaves), k \in SMins}
-            \ {Bool(<<>>, <<>>, <<>>, k) : k \in SMins}
+L1Bool == UNION {{Bool(m, s, n, k) : k \in (IF s = <<>> THEN {0} ELSE SMins)} :
+                    m \in Opt(Leaves), s \in Opt(Leaves), n \in Opt(Leaves)}
+            \ {Bool(<<>>, <<>>, <<>>, 0)}
 L1BoolMM == {Bool(s, <<>>, <<z>>, 0) : s \in PairsOf(0), z \in Leaves}
 
 Level1 == L1Conj \cup L1Disj \cup L1Bool \cup L1BoolMM
@@ -164,8 +165,9 @@ FlatHolds(qq, x) ==
          LET ns == Cardinality({i \in DOMAIN qq.should : FlatHolds(qq.should[i], x)}) IN
          /\ \A i \in DOMAIN qq.must : FlatHolds(qq.must[i], x)
          /\ \A i \in DOMAIN qq.mustnot : ~FlatHolds(qq.mustnot[i], x)
-         /\ IF qq.must = <<>> /\ qq.should # <<>>
-            THEN ns >= (IF qq.min = 0 THEN 1 ELSE qq.min) ELSE ns >= qq.min
+         /\ IF qq.should = <<>> THEN TRUE
+            ELSE IF qq.must = <<>> THEN ns >= (IF qq.min = 0 THEN 1 ELSE qq.min)
+            ELSE ns >= qq.min
 FlatIsPlain == (ph = "case" /\ kn = "flat") => exp = FlatHolds(q, d)
 
 \* the headline clause: a conjunction of two terms on ONE nested array
